@@ -659,6 +659,14 @@ def check_matpoint(case, rec):
                                   f"step {k}: MaterialPoint.Run recorded a step whose stress-controlled components "
                                   f"are not at their target (stress control not converged, no error raised);", **sg):
             return
+        # every recorded row is ONE integration of its strain from the state of the row before (the history advances once per
+        # converged row, whatever iterations the stress control needed in between)
+        s_once, _, z_once, ok_once = integrate(beh, eps6, FeArray.asfearray(np.array(z0, float)), float(spec["dt"]))
+        if np.asarray(ok_once, bool).all():
+            rec.close(np.asarray(s_once, float) - sig_h[k][None, None], sc.sig, 1e-8, "matpoint_row_is_one_integration",
+                      f"step {k}: the recorded stress is not Behavior.Integrate(strain of the row, state of the previous row)", **sg)
+            rec.close(np.asarray(z_once, float) - z1, max(1.0, sc.eps), 1e-8, "matpoint_row_is_one_integration",
+                      f"step {k}: the recorded state is not the one Behavior.Integrate returns from the state of the previous row", **sg)
         fl = step_oracles(rec, spec, ref, sc, sg, eps6, z0, z1, sig_h[k][None, None], one, k)
         unloaded |= flowed and not fl.any()
         flowed |= bool(fl.any())
